@@ -22,7 +22,8 @@
 From Coq Require Import List Bool Arith NArith ZArith.
 From Coq.Strings Require Import String.
 From Verif Require Import Base.Bytes Idl.Ast Idl.AstUtil Idl.Resolve Idl.ResolveSpec
-     Idl.Check Idl.Rules Idl.CheckFacts Idl.Accept Idl.AcceptFacts Idl.AcceptConst Idl.AcceptBackend Idl.AcceptSound.
+     Idl.Check Idl.Rules Idl.CheckFacts Idl.Accept Idl.AcceptFacts Idl.AcceptConst Idl.AcceptBackend Idl.AcceptSound
+     Idl.ResolvableSpec Idl.ResolvableConst Idl.AcceptComplete.
 Import ListNotations.
 Local Open Scope string_scope.
 
@@ -110,7 +111,7 @@ Print Assumptions diagnosed_AmbiguousConst_partial.
 (* the enumeration behind those two predicates lists, whenever it answers, exactly
    the explanations of the declarative relation of C05 *)
 Theorem explanations_exact : forall p fn f s l,
-  prog_file p fn = Some f -> explanations p fn f s = Some l ->
+  prog_file p fn = Some f -> Rules.explanations p fn f s = Some l ->
   forall x, In x l <-> const_denotes p fn s x.
 Proof. exact explanations_spec. Qed.
 Print Assumptions explanations_exact.
@@ -179,6 +180,35 @@ Theorem resolver_visits_every_reachable_file : forall p r, resolve_program p = O
     resolve_file_in d1 f = Ok f'.
 Proof. exact reachable_stepped. Qed.
 Print Assumptions resolver_visits_every_reachable_file.
+
+(* ---------------------------------------------------------------- completeness of the catalogue (converse direction) *)
+
+(* The front end rejects nothing the catalogue does not list: on a program inside C05's
+   [resolvable] (every include present and no include cycle, global names distinct, every
+   type name denotes a definition or builtin — no undefined or non-type symbol, no typedef
+   cycle —, base services exist, every identifier value has exactly one explanation,
+   plain definition names) that violates none of the rules the checker enforces,
+   CircleDetect, CheckAll and ResolveSymbols all succeed.  ([resolvable] is C05's
+   decidable description of the programs on which [resolve_complete] holds; it plays the
+   part of "violates none of IncludeCycle / UndefinedType / NonTypeAsType / TypedefCycle /
+   UnknownBaseService / UndefinedConst / AmbiguousConst", with missing includes too.) *)
+Theorem front_end_complete : forall p, resolvable p = true ->
+  (forall r, In r checker_rules -> violates r p = false) ->
+  exists r order, front_end p = FrontOk r order.
+Proof. exact AcceptComplete.front_end_complete. Qed.
+Print Assumptions front_end_complete.
+
+(* Full statement:
+     accepts_complete : forall p b, resolvable p = true ->
+       (forall r, ast_level r = true -> violates r p = false) -> accepts p b = AOk
+   Proved for programs without constant and default values ([no_values]): for those the
+   Go backend has no kind decision to take and the front end decides alone.  With values
+   the declarative predicates ConstKindMismatch / StructLiteralBadKey cover directly
+   named types only, so "violates none" does not yet imply that [kind_check] passes. *)
+Theorem accepts_complete_partial : forall p b, resolvable p = true -> no_values p = true ->
+  (forall r, In r checker_rules -> violates r p = false) -> accepts p b = AOk.
+Proof. exact AcceptComplete.accepts_complete_no_values. Qed.
+Print Assumptions accepts_complete_partial.
 
 (* ---------------------------------------------------------------- getEnum *)
 
@@ -254,6 +284,11 @@ Example ex_violates_nothing : forallb (fun r => negb (violates r ex_p)) all_rule
 Proof. vm_compute. reflexivity. Qed.
 Example ex_plain : plain_names ex_p = true.
 Proof. vm_compute. reflexivity. Qed.
+Example ex_resolvable : resolvable ex_p = true /\ forallb (fun r => negb (violates r ex_p)) checker_rules = true.
+Proof. vm_compute. auto. Qed.
+Example ex_no_values : resolvable wit_valid = true /\ no_values wit_valid = true /\
+                       forallb (fun r => negb (violates r wit_valid)) checker_rules = true.
+Proof. vm_compute. auto. Qed.
 Example ex_acyclic : typedef_acyclic [] chain_file.
 Proof. exact chain_file_acyclic. Qed.
 
